@@ -38,20 +38,78 @@ def check(model: Model, rep: Report, tier: str):
     from .c19 import _i2
     with rep.isolated():
         share_rule(rep, model, _i2, "C17.Y8", "gates of the layouts and of the device are matched as unordered qubit pairs: EdgeIDObj equality / hash do not depend on the order of the two qubits (= C19.I2)")
+    from .c19 import _i3
+    with rep.isolated():
+        share_rule(rep, model, _i3, "C17.Y8", "qubits of layouts, devices and user requests are matched by name: QubitIDObj equality is equality of the names (= C19.I3)")
     # derived descriptions do not carry parks in a table: they ASK get_requires_parking at run time -- its skeleton is part of this property
-    from .c16 import q1, q3, q4_q5, q9
+    from .c16 import q1, q2, q3, q4_q5, q9
     txt = ("the parks of a derived description are computed by get_requires_parking over the kept gates: that function has the skeleton 'neighbours a gate and takes part in none "
            "(both over ALL gates, complete before any gate can demand parking) and some involved neighbour is higher and on the moving side of its gate' (= C16.Q4), written in "
            "the frequency order (= C16.Q1), the moving side (= C16.Q3) and the device primitives (= C16.Q9); the checker's own predicate of Y4 is this skeleton")
     with rep.isolated():
-        for fn, only in ((q1, {"C16.Q1"}), (q3, {"C16.Q3"}), (q4_q5, {"C16.Q4"}), (q9, {"C16.Q9"})):
+        for fn, only in ((q1, {"C16.Q1"}), (q2, {"C16.Q2"}), (q3, {"C16.Q3"}), (q4_q5, {"C16.Q4"}), (q9, {"C16.Q9"})):
             share_rule(rep, model, fn, "C17.Y9", txt, only_rules=only)
+    from .c16 import q11
+    with rep.isolated():
+        share_rule(rep, model, q11, "C17.Y9", "")
     with rep.isolated():
         y10(model, rep)
+    with rep.isolated():
+        y12(model, rep)
     from .c03 import h6
     from ..resolve import CallGraph
     with rep.isolated():
         h6(model, rep, CallGraph(model), keep=lambda h: "repetition_code" in h.loc or "connectivity" in h.loc, rule="C17.Y11")
+
+
+def y12(model: Model, rep: Report):
+    """The qubit listing of a description is exactly its data and ancilla qubits."""
+    rep.rule("C17.Y12", "RepetitionCodeDescription.qubit_ids lists every data qubit and every ancilla qubit exactly once, whichever of the two lists is longer: decided by "
+                        "interpreting the accessor's own statements on lists of opaque symbols for all length pairs up to 4 x 4 (index map; qcolint.listinterp) -- the "
+                        "identifier <-> circuit index map and the parking look-up are built from this listing")
+    from ..listinterp import ListInterp, Sym
+    K = model.cls("RepetitionCodeDescription")
+    f = K.resolve("qubit_ids")
+    if f is None:
+        raise AnalysisError("RepetitionCodeDescription.qubit_ids vanished")
+    # the stored lists behind the two accessors
+    names = {}
+    for acc, kind in (("data_qubit_ids", "d"), ("ancilla_qubit_ids", "a")):
+        names[acc] = kind
+        g = K.resolve(acc)
+        if g is not None and g.kind == "property":
+            try:
+                v = Evaluator(model, inline_methods=False).value_of(g, self_cls=K)
+            except Unsupported:
+                v = None
+            if v is not None and v[0] == "attr" and v[1] == sym(g.self_name):
+                names[v[2]] = kind
+    bad = None
+    n = 0
+    try:
+        for nd in range(0, 5):
+            for na in range(0, 5):
+                data = [Sym(f"d{i}") for i in range(nd)]
+                anc = [Sym(f"a{i}") for i in range(na)]
+                attrs = {nm: (list(data) if k == "d" else list(anc)) for nm, k in names.items()}
+                out = ListInterp(attrs, self_name=f.self_name).run(f.node)
+                n += 1
+                if not isinstance(out, (list, tuple)):
+                    bad = bad or f"{nd} data / {na} ancilla qubits: the accessor returns {type(out).__name__}"
+                    continue
+                got = sorted(map(str, out))
+                want = sorted(map(str, data + anc))
+                if got != want and bad is None:
+                    missing = [x for x in want if x not in got]
+                    extra = [x for x in got if got.count(x) > want.count(x)]
+                    bad = f"{nd} data / {na} ancilla qubits: lists {list(map(str, out))}" + (f", missing {missing}" if missing else "") + (f", repeated {sorted(set(extra))}" if extra else "")
+    except Unsupported as e:
+        raise AnalysisError(f"RepetitionCodeDescription.qubit_ids is outside the list fragment the index-map interpreter reads ({e})")
+    except (ValueError, IndexError, TypeError) as e:
+        bad = bad or f"raises {type(e).__name__}: {e} for some length pair"
+    rep.check(bad is None, "C17.Y12", "RepetitionCodeDescription.qubit_ids", f.loc, found=bad or f"all data and ancilla qubits, once each, on {n} length pairs (symbolic elements)",
+              required="every data and every ancilla qubit exactly once", what="the description's qubit listing is not exactly its qubits: a qubit that is gated or parked has no "
+              "circuit index (the identifier <-> index map is not a bijection onto the involved qubits): " + (bad or ""), detail="listing")
 
 
 def y10(model: Model, rep: Report):
